@@ -1,4 +1,5 @@
 import MaestroVerif.Model.Dag
+import MaestroVerif.Model.Exec
 open MaestroVerif
 
 /-! Line-protocol driver: one operation per input line, one canonical answer line per operation. -/
@@ -37,8 +38,116 @@ def step (g : Dag.Dag) (toks : List String) : Dag.Dag × String :=
   | _ => (g, "bad-op")
 end DagDrv
 
+
+namespace ExecDrv
+open Exec Gen
+
+def kv (toks : List String) (key : String) : String :=
+  match toks.find? (fun t => t.startsWith (key ++ "=")) with
+  | some t => (t.drop (key.length + 1)).toString
+  | none => ""
+
+def bits (s : String) : List Bool := s.toList.map (· == '1')
+
+def parseEdges (s : String) : List (Nat × Nat) :=
+  if s.isEmpty then [] else
+  (s.splitOn ",").filterMap fun e =>
+    match e.splitOn ">" with
+    | [a, b] => match a.toNat?, b.toNat? with
+      | some x, some y => some (x, y)
+      | _, _ => none
+    | _ => none
+
+def mkCfg (toks : List String) : Cfg :=
+  let n := (kv toks "n").toNat!
+  let edges := parseEdges (kv toks "edges")
+  let sched := bits (kv toks "sched")
+  let rst := bits (kv toks "restart")
+  let rl := (kv toks "rlimit").toNat!
+  let subs := bits (kv toks "subs")
+  let adj : Nat → List Nat := fun a => (edges.filter (fun e => e.1 == a)).map (·.2) |>.eraseDups
+  let par : Nat → List Nat := fun b => (edges.filter (fun e => e.2 == b)).map (·.1) |>.eraseDups
+  { n := n, dag := { nodes := List.range (n + 1), adj := adj }, parents := par,
+    sched := fun i => sched.getD (i - 1) true,
+    hasRestart := fun i => rst.getD (i - 1) false,
+    rlimit := fun i => if rst.getD (i - 1) false then rl else 0,
+    throttle := (kv toks "throttle").toNat!, attempts := (kv toks "attempts").toNat!,
+    dry := kv toks "dry" == "1",
+    subOk := fun k => subs.getD k true }
+
+def parseState (s : String) : Option State := State.all.find? (fun x => x.name == s)
+
+def parseReports (s : String) : List (Nat × Option State) :=
+  if s.isEmpty || s == "-" then [] else
+  (s.splitOn ",").filterMap fun r =>
+    match r.splitOn ":" with
+    | [a, b] => match a.toNat? with
+      | some i => some (i, if b == "-" then none else parseState b)
+      | none => none
+    | _ => none
+
+def parseCode (s : String) : JobStatusCode :=
+  if s == "OK" then .OK else if s == "NOJOBS" then .NOJOBS else .ERROR
+
+def insertSorted (x : Nat) : List Nat → List Nat
+  | [] => [x]
+  | y :: ys => if x ≤ y then x :: y :: ys else y :: insertSorted x ys
+
+def sortNat (l : List Nat) : List Nat := l.foldr insertSorted []
+
+def fmtSet (l : List Nat) : String := ",".intercalate ((sortNat l).map toString)
+
+def b01 (b : Bool) : String := if b then "ok" else "fail"
+def mr (b : Bool) : String := if b then "restart" else "main"
+
+def fmtEv : Ev → String
+  | .check l => s!"check[{fmtSet l}]"
+  | .gen i => s!"gen({i})"
+  | .submit i r ok j => s!"submit({i},{mr r},{b01 ok},{if ok then j else 0})"
+  | .localRun i r ok j => s!"local({i},{mr r},{b01 ok},{if ok then j else 0})"
+  | .cancelJobs l => s!"cancel[{fmtSet l}]"
+
+def dump (cfg : Cfg) (g : G) : String :=
+  let st := " ".intercalate ((List.range cfg.n).map fun k =>
+    let i := k + 1
+    s!"{i}:{(g.status i).name}:{(g.jobs i).getLast?.getD 0}:{g.restarts i}:[{fmtSet (g.deps i)}]")
+  let rdy := ",".intercalate (g.ready.map toString)
+  s!"st={st} done=\{{fmtSet g.completed}} prog=\{{fmtSet g.inProgress}} fail=\{{fmtSet g.failed}} canc=\{{fmtSet g.cancelled}} ready=[{rdy}] cflag={if g.isCanceled then 1 else 0}"
+
+structure St where
+  cfg : Cfg
+  g : G
+
+def newEvents (old new : G) : String :=
+  ";".intercalate ((new.log.drop old.log.length).map fmtEv)
+
+def step (st : Option St) (toks : List String) : Option St × String :=
+  match toks with
+  | "exec.graph" :: rest =>
+    let cfg := mkCfg rest
+    (some ⟨cfg, init cfg⟩, "ok")
+  | ["exec.cancel"] =>
+    match st with
+    | none => (st, "bad-op")
+    | some s =>
+      let g' := cancel s.g
+      (some { s with g := g' }, s!"ret=ok ev={newEvents s.g g'} {dump s.cfg g'}")
+  | "exec.poll" :: code :: rest =>
+    match st with
+    | none => (st, "bad-op")
+    | some s =>
+      let reps := parseReports (rest.headD "")
+      let r := poll s.cfg s.g { code := parseCode code, reports := reps }
+      let ret := match r.2 with
+        | .raised => "RAISE:RuntimeError"
+        | .status v => v.name
+      (some { s with g := r.1 }, s!"ret={ret} ev={newEvents s.g r.1} {dump s.cfg r.1}")
+  | _ => (st, "bad-op")
+end ExecDrv
+
 structure DrvState where
   dag : Dag.Dag := Dag.empty
+  exec : Option ExecDrv.St := none
 
 def stepLine (st : DrvState) (line : String) : DrvState × String :=
   let toks := (line.trimAscii.toString.splitOn " ").filter (· ≠ "")
@@ -48,6 +157,9 @@ def stepLine (st : DrvState) (line : String) : DrvState × String :=
     if t.startsWith "dag." then
       let r := DagDrv.step st.dag toks
       ({ st with dag := r.1 }, r.2)
+    else if t.startsWith "exec." then
+      let r := ExecDrv.step st.exec toks
+      ({ st with exec := r.1 }, r.2)
     else (st, "bad-op")
 
 partial def loop (h : IO.FS.Stream) (out : IO.FS.Stream) (st : DrvState) : IO Unit := do
